@@ -544,6 +544,18 @@ impl Context {
             return (stream, true);
         }
         match (ident_ty, target) {
+            // a typedef'd target: convert to the aliased type, then wrap in the newtype
+            (
+                _,
+                CodegenTy::Adt(AdtDef {
+                    did: newtype_did,
+                    kind: AdtKind::NewType(inner_ty),
+                }),
+            ) => {
+                let ident = self.cur_related_item_path(*newtype_did);
+                let (stream, is_const) = self.ident_into_ty(did, ident_ty, inner_ty);
+                (format!("{ident}({stream})").into(), is_const)
+            }
             (CodegenTy::Str, CodegenTy::FastStr) => {
                 let stream = self.cur_related_item_path(did);
                 (
